@@ -710,23 +710,38 @@ func getTextContentRecursive(n *html.Node, result *strings.Builder) {
 	}
 }
 
-// getDirectTextContent gets text content from a node, excluding nested block elements.
+// getDirectTextContent gets the text that belongs to a node itself: inline
+// content and the content of paragraph-like wrappers (p, div, blockquote),
+// excluding nested lists and tables, which the caller handles separately.
 func getDirectTextContent(n *html.Node) string {
 	var result strings.Builder
+	writeDirectTextContent(n, &result)
+	return strings.TrimSpace(result.String())
+}
+
+func writeDirectTextContent(n *html.Node, result *strings.Builder) {
 	for c := n.FirstChild; c != nil; c = c.NextSibling {
 		if c.Type == html.TextNode {
 			result.WriteString(c.Data)
 		} else if c.Type == html.ElementNode {
-			// Include inline elements, skip block elements
 			switch c.Data {
-			case "ul", "ol", "div", "p", "table", "blockquote":
-				// Skip these - they're block elements
+			case "ul", "ol", "table":
+				// Skip these - nested lists become items of their own
+			case "div", "p", "blockquote":
+				// Block wrappers: their own text is part of this node's text,
+				// separated from its neighbours by a single space
+				if s := result.String(); s != "" && !strings.HasSuffix(s, " ") {
+					result.WriteString(" ")
+				}
+				writeDirectTextContent(c, result)
+				if s := result.String(); s != "" && !strings.HasSuffix(s, " ") {
+					result.WriteString(" ")
+				}
 			default:
 				result.WriteString(getTextContent(c))
 			}
 		}
 	}
-	return strings.TrimSpace(result.String())
 }
 
 // PageCount returns 1 (HTML documents are single-page).
